@@ -528,6 +528,10 @@ def drive_partial_retrieval(ctx, tier, n_cases=None, meta=None):
         f = sigs.make_func(p, name='fn%d' % next(_fn_counter))
         npos = rnd.randint(0, sigs.positional_capacity(p) + 1)
         cand = [x[0] for x in p if x[1] in (PK, KO)] + [oracle.FOREIGN]
+        if sigs.has_kind(p, VK) and rnd.random() < 0.15:
+            # a keyword that can only travel through **kwargs although it is spelled like a parameter: a positional-only
+            # one, or the star parameters themselves
+            cand += [x[0] for x in p if x[1] in (PO, VA, VK)]
         kws = rnd.sample(cand, rnd.randint(0, min(2, len(cand))))
         ctx.count('driver.partial')
         call(S.signature, functools.partial(f, *([0] * npos), **{k: 5 for k in kws}))
